@@ -181,6 +181,21 @@ func (lr *lbRun) run() *lbResult {
 		res.Fatal = err.Error()
 		return res
 	}
+	// vacuity guard: a corpus program whose own input package does not compile says nothing about goverter
+	var broken []string
+	for _, c := range convs {
+		if !c.GenOK && (strings.Contains(c.GenErr, "could not load package") || strings.Contains(c.GenErr, "failed to load package")) && !c.InputMayNotCompile {
+			broken = append(broken, c.ID+": "+firstLine(c.GenErr))
+		}
+	}
+	if len(broken) > 0 {
+		sort.Strings(broken)
+		if len(broken) > 5 {
+			broken = broken[:5]
+		}
+		res.Fatal = "corpus programs whose input does not compile (generator bug of the corpus, not of goverter): " + strings.Join(broken, " | ")
+		return res
+	}
 	for _, c := range convs {
 		if c.GenOK && c.ExpectFail && !c.AnyOutcome {
 			res.GenUnexp = append(res.GenUnexp, c)
